@@ -64,6 +64,7 @@ let case_chan k line lines =
     let queries : (int, query) Hashtbl.t = Hashtbl.create 16 in     (* by token *)
     let by_qid : (int, query) Hashtbl.t = Hashtbl.create 16 in
     let nreq = ref 0 in
+    let nremoved = ref 0 in   (* re-queues caused by the removal of the server a query was waiting on *)
     let sock_tcp : (int, bool) Hashtbl.t = Hashtbl.create 16 in
     let sock_closed : (int, bool) Hashtbl.t = Hashtbl.create 16 in
     let pending : (int, (int * reply_kind option * bool) Queue.t) Hashtbl.t = Hashtbl.create 16 in  (* socket -> (id, kind, question_ok) *)
@@ -160,13 +161,10 @@ let case_chan k line lines =
         let fifo = match Hashtbl.find_opt pending s with Some f -> f | None -> Queue.create () in
         let consumed = take nread (List.of_seq (Queue.to_seq fifo)) in
         for _ = 1 to List.length consumed do ignore (Queue.pop fifo) done;
-        if err then begin
-          (* read error: the connection is closed, every query on it is re-queued; datagrams read before it are lost *)
-          Hashtbl.replace feats "readerr" ();
-          List.iter (fun qu -> if in_flight qu && qu.sock = s then feed qu (IConnClosed (zi !s_now, aRES_ECONNREFUSED))) (queries_in_order ())
-        end else begin
+        begin
           let tcp = (match Hashtbl.find_opt sock_tcp s with Some b -> b | None -> false) in
           let touched = ref [] in
+          let stopped = ref false in
           (* the walk of read_answers: message by message, until one does not parse *)
           let rec walk_msgs = function
             | [] -> ()
@@ -182,12 +180,21 @@ let case_chan k line lines =
             | (_, None, _) :: rest ->
               (* process_answer fails: the connection is closed, every query still outstanding on it
                  is re-queued; the messages behind it are lost *)
+              stopped := true;
               Hashtbl.replace feats "malformed" ();
               if rest <> [] then Hashtbl.replace feats "malformed-not-last" ();
               if !touched <> [] then Hashtbl.replace feats "malformed-after-requeue" ();
               List.iter (fun qu -> if in_flight qu && qu.sock = s then feed qu (IConnClosed (zi !s_now, aRES_EBADRESP))) (queries_in_order ()) in
           if List.length consumed > 1 then Hashtbl.replace feats "batch" ();
           walk_msgs consumed;
+          (* the read itself failed: what was read before the failure has been processed above,
+             now the connection is closed and every query still outstanding on it is re-queued *)
+          if err then begin
+            Hashtbl.replace feats "readerr" ();
+            if consumed <> [] then Hashtbl.replace feats "readerr-after-data" ();
+            if not !stopped then
+              List.iter (fun qu -> if in_flight qu && qu.sock = s then feed qu (IConnClosed (zi !s_now, aRES_ECONNREFUSED))) (queries_in_order ())
+          end;
           (* ... and on every way out the requeue array is flushed *)
           List.iter flush (List.rev !touched)
         end) rl;
@@ -240,7 +247,11 @@ let case_chan k line lines =
            s_now := n;
            (* queries outstanding on a connection of a removed server are re-queued (status SUCCESS) *)
            List.iter (fun s ->
-             List.iter (fun qu -> if in_flight qu && qu.sock = s then feed qu (IConnClosed (zi n, aRES_SUCCESS))) (queries_in_order ())) (closes block);
+             List.iter (fun qu -> if in_flight qu && qu.sock = s then begin
+                 Hashtbl.replace feats "server-removed-inflight" ();
+                 incr nremoved;
+                 if !nremoved > !smax * tries then Hashtbl.replace feats "removals-over-budget" ();
+                 feed qu (IConnClosed (zi n, aRES_SUCCESS)) end) (queries_in_order ())) (closes block);
            mark_closed block;
            end_block "setservers";
            walk rest'
